@@ -104,6 +104,18 @@ CLAIMED["C06"] = dict(
 )
 
 NOT_APPLICABLE = {
+    "C04": "fang order is the order of side effects of opaque boxed async closures composed at configuration time; the final Node keeps only the composed closures, so no postcondition over a function result can name 'which fangs, in which order' without ghost fields in production structs (DESIGN §4 C04)",
+    "C09": "not built in the time available (planned as method-level serialize/deserialize round trips, DESIGN §4 C09); whole from_bytes::<T> through serde-derived impls does not get through CBMC's symbolic execution",
+    "C10": "not built in the time available (planned as template harnesses on Multipart::parse, DESIGN §4 C10)",
+    "C11": "not built as its own check in the time available; the cookie value/name validators are under contract in C08, the Set-Cookie builder/parser round trip is not",
+    "C12": "the decision runs through HMAC-SHA2, base64url and serde_json in one function; SHA-2 on symbolic input is out of reach for CBMC and Kani cannot stub the generic trait methods involved (DESIGN §4 C12)",
+    "C13": "a harness contract exists (harness/C13) with base64 decoding as an assumed contract, but one decided shape takes ~9 min under CBMC and others run out of memory: not reliable enough to register (DESIGN §8.2)",
+    "C14": "half of the property is whole-configuration data flow (allowed-method lists assembled during registration through HashMap/RandomState and leaked closures), not a function result; claiming it on the header matrix of CORSProc::bite alone would decide only part of it (DESIGN §4 C14)",
+    "C15": "validity under JSON Schema 2020-12 and agreement of a serde_json document with the routing table are not expressible as a function contract within reach of Kani/Verus (DESIGN §4 C15)",
+    "C16": "the subject is a procedural macro (proc-macro crate: no Kani harness possible) and the quantifier is over type definitions (DESIGN §4 C16)",
+    "C17": "the chunk framing is an inline block of the async fn Response::send; a harness over the whole send did not finish for the simpler Payload case (15 min), and the producer-schedule clause is not a contract (DESIGN §4 C17, §8.2)",
+    "C18": "interleavings of a signal-handler thread with the accept loop over atomics: Kani has no thread support, Verus would need the code rewritten with its atomic-invariant types (a model) (DESIGN §4 C18)",
+    "C19": "the served set is defined by a walk of the real file system at registration time inside a closure; Kani has no file-system model (DESIGN §4 C19)",
 }
 
 PENDING = "not built yet in this phase (planned per DESIGN.md §4); not claimed until its check exists"
